@@ -336,7 +336,11 @@ def canonicalize(repo: Repo, chk: Check, rule: str = "C10.canon") -> None:
     if not loops:
         raise AnalysisError(f"{f.where}: loop over the strides not found")
     lv = loops[0].node.target.id if isinstance(loops[0].node.target, ast.Name) else None
-    chk.result(norm.match(T("reversed(self.strides)"), loops[0].node.iter) is not None, rule, f"{f.key}:inner-first", loops[0].where(),
+    # the innermost level may be put into the collected list up front (`kept = self.strides[-1:]`) and the loop run over the others
+    seeded = norm.match(T("reversed(self.strides[:-1])"), loops[0].node.iter) is not None and any(
+        isinstance(st_.node, (ast.Assign, ast.AnnAssign)) and st_.node.value is not None and norm.any_match(["self.strides[-1:]", "list(self.strides[-1:])", "[*self.strides[-1:]]"], st_.node.value) is not None
+        and not st_.loops for st_ in fl.stmts(ast.Assign, ast.AnnAssign))
+    chk.result(norm.match(T("reversed(self.strides)"), loops[0].node.iter) is not None or seeded, rule, f"{f.key}:inner-first", loops[0].where(),
                "levels are visited innermost first")
     # merges: stores strides[0] = Stride(...)
     def _merged_value(s: Site) -> ast.expr | None:
@@ -385,11 +389,13 @@ def canonicalize(repo: Repo, chk: Check, rule: str = "C10.canon") -> None:
         # "not the innermost": an earlier `continue` took the first level away, or something has been collected already
         not_first = any(isinstance(parent.get(id(c.node)), ast.If) and c.line < s.line for c in conts if c is not s) or bool(has_fact(
             s, ["len($x) != 0", "len($x) > 0", "$x", "($x[-1] if $x else None) is not None", "($x[0] if $x else None) is not None"]))
-        ok = bool(has_fact(s, ["$o.bound == 1"], {"o": lv})) and not_first
+        ok = bool(has_fact(s, ["$o.bound == 1"], {"o": lv})) and (not_first or seeded)
         chk.result(ok, rule, f"{f.key}:drop@{n}", s.where(), "a level is dropped only if its bound is 1 and it is not the innermost",
                    "a level is skipped under a condition other than `bound == 1 and not innermost`", s.fact_texts)
     ins = [s for s in fl.calls("insert", "append") if s.reachable]  # collected outermost-first (insert(0, ..)) or innermost-first (append)
     first_keep = [s for s in ins if has_fact(s, ["len($x) == 0", "not $x", "($x[-1] if $x else None) is None", "($x[0] if $x else None) is None"])]
+    if not first_keep and seeded:
+        first_keep = [loops[0]]
     if not first_keep:
         # written without a test of its own: every condition on the way to the insert is of the form `<nothing collected> or ..`
         # (`if kept and <drop>: continue`, `if kept and <merge>: .. else: kept.append(stride)`), i.e. with an empty list the insert is reached
